@@ -88,6 +88,10 @@ func genKill(o opts) []killCase {
 		killCase{Proto: "grpc", Behaviour: "delay", Launch: "cmd", Pattern: "cleanup"},
 		killCase{Proto: "grpc", Behaviour: "exit", Launch: "reattach", Pattern: "single"},
 		killCase{Proto: "netrpc", Behaviour: "ignore", Launch: "reattach", Pattern: "single"},
+		// a custom runner (whose Kill, like an API-backed runner's, refuses a request made with a finished context)
+		killCase{Proto: "netrpc", Behaviour: "ignore", Launch: "runner", Pattern: "single"},
+		killCase{Proto: "grpc", Behaviour: "ignore", Launch: "runner", Pattern: "single"},
+		killCase{Proto: "grpc", Behaviour: "delay", Launch: "runner", Pattern: "single"},
 		// the plugin was started by ANOTHER process (it is not a child of the host that reattaches and kills)
 		killCase{Proto: "grpc", Behaviour: "ignore", Launch: "reattach-foreign", Pattern: "single"},
 		killCase{Proto: "netrpc", Behaviour: "delay", Launch: "reattach-foreign", Pattern: "single"},
@@ -138,6 +142,15 @@ func runOneKill(c killCase, tmpBase string, idx int) (sx.V, sx.V) {
 	case "runnerfails":
 		cfg.Cmd = nil
 		cfg.RunnerFunc = func(hclog.Logger, *exec.Cmd, string) (runner.Runner, error) { return failingRunner{}, nil }
+	}
+	if c.Launch == "runner" {
+		cmd := cfg.Cmd
+		cfg.Cmd = nil
+		cfg.RunnerFunc = func(l hclog.Logger, spec *exec.Cmd, tmp string) (runner.Runner, error) {
+			real := exec.Command(cmd.Path)
+			real.Env = append(append([]string{}, cmd.Env...), spec.Env...)
+			return newProcRunner(real)
+		}
 	}
 	cl := plugin.NewClient(cfg)
 	pid := 0
